@@ -12,7 +12,8 @@ RULE = ("every format {json, orjson, yaml, msgpack, toml} x every schema of the 
         "inside the format's representable subset x entry points {format mixin methods, Encoder/Decoder objects, one-shot functions}: "
         "(a) decode(encode(v)) is `same` as v; (b) the document parsed by the format's own library equals the reference basic form with the "
         "format's declared native types left native and (TOML) null fields absent; (c) mixin document == codec document == one-shot "
-        "document. Non-trivial: the value's basic form differs from the value.")
+        "document; (d) classes with different Config.orjson_options (eager / lazy / self-referencing) defined one after the other: each "
+        "to_jsonb equals orjson.dumps under ITS OWN options, a keyword overrides. Non-trivial: the value's basic form differs from the value.")
 ASSUMPTIONS = [
     "representable subset (part of the enumerator): string map keys for json/orjson/msgpack/toml, no bool/None/float keys for yaml, 64-bit ints for "
     "orjson/msgpack/toml, naive times for orjson/toml, no null inside containers for toml, table at top level for toml",
@@ -35,8 +36,15 @@ def _schemas(tier):
     return out
 
 
+OPTS = ("none", "OPT_OMIT_MICROSECONDS", "OPT_NON_STR_KEYS", "OPT_SORT_KEYS", "OPT_NAIVE_UTC")
+STYLES = ("eager", "lazy", "selfref")
+
+
 def units(tier):
-    return [(d, fmt) for d in _schemas(tier) for fmt in formats.FORMATS]
+    out = [(d, fmt) for d in _schemas(tier) for fmt in formats.FORMATS]
+    # classes with different Config.orjson_options defined one after the other (each eager / lazy / self-referencing)
+    out += [("orjson_options", oa, sa, ob, sb) for oa in OPTS for ob in OPTS for sa in STYLES for sb in STYLES]
+    return out
 
 
 def representable(fmt, tree, top=True):
@@ -147,7 +155,87 @@ def has_none(x):
     return False
 
 
+def run_options(unit):
+    """Runs in a forked child: whatever a unit leaves behind in library-global state must neither reach other units of this worker
+    nor depend on them (the same unit replayed alone gives the same verdict)."""
+    import os
+    import pickle
+    r, w = os.pipe()
+    pid = os.fork()
+    if pid == 0:
+        try:
+            os.close(r)
+            data = pickle.dumps(_run_options(unit))
+            with os.fdopen(w, "wb") as f:
+                f.write(data)
+        finally:
+            os._exit(0)
+    os.close(w)
+    with os.fdopen(r, "rb") as f:
+        data = f.read()
+    os.waitpid(pid, 0)
+    return pickle.loads(data)
+
+
+def _run_options(unit):
+    """Each class's to_jsonb must equal orjson.dumps(<its to_dict under the orjson dialect>, option=<ITS OWN Config.orjson_options>),
+    whatever other orjson classes were defined before it; an explicit orjson_options= argument overrides."""
+    import orjson
+    _, oa, sa, ob, sb = unit
+    res = core.UnitResult()
+
+    def V(clause, oc, who, detail):
+        res.violation(f"{clause}|{unit}|{who}|{oc}", clause, oc, dict(desc=None, format="orjson", entry="options", value_index=-1, unit=unit,
+                                                                     facts={}), detail)
+    with space.Ctx() as ctx:
+        from mashumaro.mixins.orjson import DataClassORJSONMixin
+        ctx.ns.update(DataClassORJSONMixin=DataClassORJSONMixin, orjson=orjson, datetime=dt.datetime)
+        built = []
+        for name, opt, style in (("OA", oa, sa), ("OB", ob, sb)):
+            cfg = []
+            if opt != "none":
+                cfg.append(f"        orjson_options = orjson.{opt}")
+            if style == "lazy":
+                cfg.append("        lazy_compilation = True")
+            src = (f"@dataclass\nclass {name}(DataClassORJSONMixin):\n    when: datetime\n    table: Dict[int, str]\n    b: int = 2\n    a: int = 1\n"
+                   + (f"    kids: List['{name}'] = field(default_factory=list)\n" if style == "selfref" else "")
+                   + ("    class Config(BaseConfig):\n" + "\n".join(cfg) + "\n" if cfg else ""))
+            try:
+                ctx.run(src)
+                built.append((name, opt))
+            except Exception as e:   # noqa: BLE001
+                res.cases += 1
+                V("build-failed", type(e).__name__, name, repr(e)[:200])
+        for name, opt in reversed(built):      # the class defined LAST is looked at first
+            cls = ctx.ns[name]
+            for table in ({}, {1: "x"}):
+                for call_opt in (None, "OPT_SORT_KEYS"):
+                    v = cls(when=dt.datetime(2020, 1, 2, 3, 4, 5, 678901), table=dict(table))
+                    option = getattr(orjson, opt) if opt != "none" else None
+                    kw = {}
+                    if call_opt:
+                        option = getattr(orjson, call_opt)
+                        kw["orjson_options"] = option
+                    res.cases += 1
+                    res.transitions += 1
+                    want = e1.outcome(lambda: orjson.dumps({"when": v.when, "table": v.table, "b": 2, "a": 1,
+                                                            **({"kids": []} if hasattr(v, "kids") else {})}, option=option))
+                    got = e1.outcome(lambda: v.to_jsonb(**kw))
+                    same_ = (want[0] == got[0] == "exc" and type(want[1]) is type(got[1])) or (want[0] == got[0] == "ok" and want[1] == got[1])
+                    if not same_:
+                        V("document-neq-own-options", "neq", name, f"{name} (Config.orjson_options={opt}, call={call_opt}) defined "
+                          f"{'after ' + built[0][0] + ' (' + built[0][1] + ')' if name == 'OB' else 'first'}: expected={want[1]!r:.150} got={got[1]!r:.150}")
+                    else:
+                        res.outcomes["ok" if got[0] == "ok" else "format-error"] += 1
+                        if opt != "none" or call_opt:
+                            res.nontrivial += 1
+    res.states += 1
+    return res
+
+
 def run_unit(unit, only=None):
+    if unit[0] == "orjson_options":
+        return run_options(unit)
     d, fmt = unit
     res = core.UnitResult()
     Mixin, to_name, from_name = formats.mixin(fmt)
@@ -263,5 +351,7 @@ def run_unit(unit, only=None):
 
 
 def replay(case):
+    if case.get("unit"):
+        return run_options(tuple(case["unit"])).violations
     return [v for v in run_unit((core.detuple(case["desc"]), case["format"]), only=case["value_index"] if case["value_index"] >= 0 else None).violations
             if v["case"]["entry"] == case["entry"]]
